@@ -37,7 +37,7 @@ META = {
 def _model_and_replay(ctx, rep, spec, cfg, label, workers, jobs):
     cases = os.path.join(ctx.tmp, "%s.cases" % cfg)
     ctx.model(spec, cfg, emit_to=cases, timeout=ctx.pick(900, 3400), xmx="8g", workers=workers)
-    m = ctx.replay(rep, cases, label=label, timeout=ctx.pick(900, 5400), jobs=jobs, args=["--batch", "1000"])
+    m = ctx.replay(rep, cases, label=label, timeout=ctx.pick(900, 5400), jobs=jobs, args=["--batch", ctx.pick("500", "1000")])
     os.unlink(cases)
     return m
 
